@@ -30,7 +30,7 @@ ASSUMPTIONS = ["the 'shutdown' request is a feature of the protocol, not abuse, 
 
 
 QUICK_BUDGET = {"cases": 16000, "deadline_s": 170, "case_timeout_s": 120, "floors": {"accepted_tasks": 33236, "abusive_lines": 60000, "healthy_responses": 34884, "liveness_probes": 5600, "real_tasks": 20, "state_replies_checked": 15000, "identical_submissions": 20}}
-THOROUGH_FACTOR = 12  # thorough = the same workload with 12x the cases (floors scale along)
+THOROUGH_FACTOR = 10  # thorough = the same workload with 10x the cases (floors scale along)
 
 
 def budget(tier):
